@@ -1448,3 +1448,26 @@ def f_softmax(I, t, dim=-1, **k):
 FUNCS["torch.nn.functional.softmax"] = f_softmax
 METHODS["softmax"] = f_softmax
 _c("softmax: non-negative weights summing to one, zero at -inf scores, a function of the finite scores and the -inf pattern")
+
+
+def f_pow(I, base, exp):
+    """torch.pow(scalar or tensor, tensor or scalar) for NON-NEGATIVE INTEGER exponents known concretely (x**k = x*...*x)."""
+    def one(b, e):
+        if isinstance(e, Fraction) and e.denominator == 1:
+            e = int(e)
+        if isinstance(e, float) and e == int(e):
+            e = int(e)
+        if not isinstance(e, int) or isinstance(e, bool):
+            raise Unsupported("pow with a symbolic or fractional exponent")
+        if e < 0:
+            raise Unsupported("pow with a negative exponent")
+        r = 1
+        for _ in range(e):
+            r = sc_mul(r, b)
+        return r
+    return CT.ew(one, base, exp, dtype="float")
+
+
+FUNCS["torch.pow"] = f_pow
+METHODS["pow"] = f_pow
+_c("pow with concrete non-negative integer exponents = repeated product")
